@@ -181,6 +181,10 @@ pub struct ArchiveCase {
     pub pops: Vec<Vec<Ind>>,
     /// population the archive is re-inserted into at the end
     pub target: Vec<Ind>,
+    /// between the updates the caller re-orders the elitists in place through `elitists_mut()` (1 reverse, 2 rotate by
+    /// one, 3 both): the archive is a set of individuals, their order is the caller's business
+    #[serde(default)]
+    pub reorder: u8,
 }
 
 pub struct ArchiveCheck;
@@ -191,7 +195,7 @@ impl Check for ArchiveCheck {
         "C07/elitist-archive".into()
     }
     fn classes(&self) -> &'static [&'static str] {
-        &["k < shown", "tie at the cut", "k == 0", "target already contains an elitist", "archive with equal members"]
+        &["k < shown", "tie at the cut", "k == 0", "target already contains an elitist", "archive with equal members", "elitists re-ordered in place between updates"]
     }
     fn oracle(&self, c: &ArchiveCase) -> Outcome {
         let mut cl = 0;
@@ -240,6 +244,20 @@ fn archive_oracle(c: &ArchiveCase, cl: &mut u64) -> Result<(), Failure> {
         }
         if (0..got.len()).any(|i| (0..i).any(|j| got[i] == got[j])) {
             *cl |= 16;
+        }
+        drop(a);
+        if c.reorder % 4 != 0 {
+            let mut a = st.borrow_mut::<ElitistArchive<RealP>>();
+            let e = a.elitists_mut();
+            if e.len() >= 2 {
+                *cl |= 32;
+                if c.reorder % 4 != 2 {
+                    e.reverse();
+                }
+                if c.reorder % 4 >= 2 {
+                    e.rotate_left(1);
+                }
+            }
         }
     }
     // re-insertion
@@ -424,7 +442,7 @@ pub fn run_all(ctx: &mut Ctx, replay: Option<&Path>) {
     ctx.regressions(&b);
     ctx.regressions(&a);
     ctx.random(&b, (pops_strategy(), any::<bool>(), proptest::option::of(0u32..50)).prop_map(|(pops, direct, evals)| BestCase { pops, direct, evals }), ctx.tier.pick(60_000, 300_000));
-    ctx.random(&a, (0usize..8, pops_strategy(), proptest::collection::vec((0u16..8, obj_strategy()), 0..6)).prop_map(|(k, pops, target)| ArchiveCase { k, pops, target }), ctx.tier.pick(60_000, 300_000));
+    ctx.random(&a, (0usize..8, pops_strategy(), proptest::collection::vec((0u16..8, obj_strategy()), 0..6), prop_oneof![2 => Just(0u8), 1 => 1u8..4]).prop_map(|(k, pops, target, reorder)| ArchiveCase { k, pops, target, reorder }), ctx.tier.pick(60_000, 300_000));
     let per = ctx.tier.pick(400, 2000);
     for k in 0..21 {
         let r = RunCheck(k);
